@@ -645,10 +645,18 @@ func (c *Ctx) JudgeAndReport(spec, cfg string, cases []map[string]any, shards in
 			}
 		}
 		again := old
-		if rerun != nil {
-			again = rerun(old)
+		var f2 []int
+		ok2 := true
+		// schedule- or map-order-dependent failures: up to 5 re-executions
+		for try := 0; try < 5; try++ {
+			if rerun != nil {
+				again = rerun(old)
+			}
+			f2, ok2 = c.Judge(spec, cfg, []map[string]any{again}, 1)
+			if !ok2 || len(f2) > 0 || rerun == nil {
+				break
+			}
 		}
-		f2, ok2 := c.Judge(spec, cfg, []map[string]any{again}, 1)
 		if !ok2 {
 			continue
 		}
@@ -675,3 +683,6 @@ func toInt(v any) int {
 	}
 	return -1
 }
+
+// tierCfg returns "<base>_quick.cfg" or "<base>_thorough.cfg".
+func (c *Ctx) TierCfg(base string) string { return base + "_" + c.Tier + ".cfg" }
